@@ -37,6 +37,14 @@ Start(id) ==
          B |-> Model("B", [id |-> IdField,
                            f |-> FKField("A", EmptyDict),
                            g |-> Field("Int", EmptyDict)], <<>>, <<>>)]
+    [] id = 3 ->          \* several unique_together entries, NOT in sorted order, over fields
+                          \* that are never edited next to fields that are
+        [A |-> Model("A", [id |-> IdField,
+                           f |-> Field("Char", D1("max_length", 10)),
+                           g |-> Field("Int", EmptyDict),
+                           h |-> Field("Int", EmptyDict),
+                           k |-> Field("Int", EmptyDict)],
+                     << <<"h", "k">>, <<"g", "k">> >>, <<>>)]
     [] OTHER ->
         [A |-> Model("A", [id |-> IdField,
                            f |-> Field("Char", D1("max_length", 10)),
